@@ -154,10 +154,62 @@ def _split_starred_unpacking(tree):
     return tree
 
 
-def fold_static(tree):
+_OP_CMP = {"ge": ast.GtE, "gt": ast.Gt, "le": ast.LtE, "lt": ast.Lt, "eq": ast.Eq, "ne": ast.NotEq}
+_OP_BIN = {"add": ast.Add, "sub": ast.Sub, "mul": ast.Mult, "truediv": ast.Div}
+
+
+def fold_static(tree, class_node=None):
     """in place: f-strings whose parts are all constants become the constant, `getattr(x, "name")` becomes `x.name`, a
     statement `setattr(x, "name", v)` becomes `x.name = v` — what remains of "the attribute called so-and-so" once a
-    helper's parameters have been replaced by the constants its caller passes"""
+    helper's parameters have been replaced by the constants its caller passes. With class_node: `self.TABLE[<constant>]`
+    / `self.TABLE.get(<constant>)` of a class-level literal dict reads as the entry; a local bound once to
+    `operator.<fn>` is replaced where it is called, and operator.ge(a, b) … read as `a >= b` …"""
+    tables = {}
+    if isinstance(class_node, ast.ClassDef):
+        for st_ in class_node.body:
+            if isinstance(st_, ast.Assign) and len(st_.targets) == 1 and isinstance(st_.targets[0], ast.Name) \
+                    and isinstance(st_.value, ast.Dict) and all(isinstance(k_, ast.Constant) for k_ in st_.value.keys):
+                tables[st_.targets[0].id] = st_.value
+
+    def table_entry(tab, key):
+        if isinstance(tab, ast.Attribute) and isinstance(tab.value, ast.Name) and tab.value.id in ("self", "cls") \
+                and tab.attr in tables and isinstance(key, ast.Constant):
+            d = tables[tab.attr]
+            for k_, v_ in zip(d.keys, d.values):
+                if k_.value == key.value:
+                    return clone(v_)
+        return None
+
+    class Tables(ast.NodeTransformer):
+        def visit_Subscript(self, node):
+            self.generic_visit(node)
+            if isinstance(node.ctx, ast.Load):
+                v = table_entry(node.value, node.slice)
+                if v is not None:
+                    return ast.copy_location(v, node)
+            return node
+
+        def visit_Call(self, node):
+            self.generic_visit(node)
+            if isinstance(node.func, ast.Attribute) and node.func.attr == "get" and len(node.args) == 1 and not node.keywords:
+                v = table_entry(node.func.value, node.args[0])
+                if v is not None:
+                    return ast.copy_location(v, node)
+            return node
+    if tables:
+        tree = Tables().visit(tree)
+        # callable locals: `test = operator.ge` bound once, used only as `test(…)`
+        for fn_ in [x for x in ast.walk(tree) if isinstance(x, ast.FunctionDef)]:
+            sa = single_assignments(fn_)
+            for nm, v in list(sa.items()):
+                if isinstance(v, ast.Attribute) and isinstance(v.value, ast.Name) and v.value.id == "operator" \
+                        and (v.attr in _OP_CMP or v.attr in _OP_BIN):
+                    uses = [x for x in ast.walk(fn_) if isinstance(x, ast.Name) and x.id == nm and isinstance(x.ctx, ast.Load)]
+                    calls = [c for c in ast.walk(fn_) if isinstance(c, ast.Call) and isinstance(c.func, ast.Name) and c.func.id == nm]
+                    if uses and len(uses) == len(calls):
+                        for c in calls:
+                            c.func = clone(v)
+
     class T(ast.NodeTransformer):
         def visit_JoinedStr(self, node):
             self.generic_visit(node)
@@ -178,6 +230,14 @@ def fold_static(tree):
                     and isinstance(node.args[1], ast.Constant) and isinstance(node.args[1].value, str) \
                     and node.args[1].value.isidentifier():
                 return ast.copy_location(ast.Attribute(value=node.args[0], attr=node.args[1].value, ctx=ast.Load()), node)
+            # operator.ge(a, b) -> a >= b, operator.add(a, b) -> a + b
+            if isinstance(node.func, ast.Attribute) and isinstance(node.func.value, ast.Name) and node.func.value.id == "operator" \
+                    and len(node.args) == 2 and not node.keywords and not any(isinstance(a, ast.Starred) for a in node.args):
+                if node.func.attr in _OP_CMP:
+                    return ast.copy_location(ast.Compare(left=node.args[0], ops=[_OP_CMP[node.func.attr]()],
+                                                         comparators=[node.args[1]]), node)
+                if node.func.attr in _OP_BIN:
+                    return ast.copy_location(ast.BinOp(left=node.args[0], op=_OP_BIN[node.func.attr](), right=node.args[1]), node)
             # f(*(a, b), c) -> f(a, b, c)
             if any(isinstance(a, ast.Starred) and isinstance(a.value, (ast.Tuple, ast.List)) for a in node.args):
                 args = []
@@ -931,7 +991,7 @@ def helper_view(h, call):
     m = _bind_call(h, call)
     hb = clone(h)
     hb.body = [substitute_stmt(b, m) for b in hb.body]
-    fold_static(hb)
+    fold_static(hb, getattr(h, "_parent", None))
     for n in ast.walk(hb):
         if hasattr(n, "lineno"):
             n.lineno = call.lineno
